@@ -118,6 +118,7 @@ type Table struct {
 	meta       RowMeta
 	rows       []*Row
 	rowmap     map[string]*Row
+	delmap     map[string]bool //primary keys deleted since the last Save
 	kvdb       db.KV
 	opt        *Option
 	autoinc    *Count
@@ -173,6 +174,7 @@ func NewTable(rowmeta RowMeta, kvdb db.KV, opt *Option) (*Table, error) {
 		meta:       rowmeta,
 		kvdb:       kvdb,
 		rowmap:     make(map[string]*Row),
+		delmap:     make(map[string]bool),
 		opt:        opt,
 		autoinc:    count,
 		dataprefix: dataprefix,
@@ -197,8 +199,10 @@ func (table *Table) addRowCache(row *Row) {
 	primary := string(row.Primary)
 	if row.Ty == Del {
 		delete(table.rowmap, primary)
+		table.delmap[primary] = true
 	} else if row.Ty == Add || row.Ty == Update {
 		table.rowmap[primary] = row
+		delete(table.delmap, primary)
 	}
 	table.rows = append(table.rows, row)
 }
@@ -236,6 +240,10 @@ func (table *Table) mergeCache(rows []*Row, indexName string, indexValue []byte)
 func (table *Table) findRow(primary []byte) (*Row, bool, error) {
 	if row, ok := table.rowmap[string(primary)]; ok {
 		return row, true, nil
+	}
+	//deleted in this round: the row is still in the db until Save, but it is gone for the caller
+	if table.delmap[string(primary)] {
+		return nil, false, types.ErrNotFound
 	}
 	row, err := table.GetData(primary)
 	return row, false, err
@@ -408,11 +416,19 @@ func (table *Table) Del(primaryKey []byte) error {
 		rowty := row.Ty
 		table.delRowCache(row)
 		if rowty == Add {
+			//an Add in this round after a Del of the saved row: the saved row stays deleted
+			if _, err := table.GetData(primaryKey); err == nil {
+				table.delmap[string(primaryKey)] = true
+			}
 			return nil
 		}
 	}
 	//copy row
 	delrow := *row
+	if incache && row.old != nil {
+		//the cached update is dropped, what has to be removed is the saved row and its indexes
+		delrow.Data = row.old
+	}
 	delrow.Ty = Del
 	table.addRowCache(&delrow)
 	return nil
@@ -506,6 +522,7 @@ func (table *Table) Save() (kvs []*types.KeyValue, err error) {
 	kvs = append(kvs, kvlist...)
 	//del cache
 	table.rowmap = make(map[string]*Row)
+	table.delmap = make(map[string]bool)
 	table.rows = nil
 	return util.DelDupKey(kvs), nil
 }
